@@ -491,3 +491,78 @@ func FailState(c *core.Ctx, rule string, pkgs []*packages.Package, floor int) {
 	}
 	c.Floor(rule, "state results taken from a Try payload", nRet, floor)
 }
+
+// RunOnce — R-RUNONCE: a StateT method runs its receiver once.
+//
+// The receiver of a StateT method is a computation. Recover*, Map*, FlatMap* … run it exactly once per run of the
+// result: referring to it from a handler / continuation literal (returning it as "the original result") or running it
+// twice executes the failed step again — its effects happen twice and the error reported is the second run's.
+func RunOnce(c *core.Ctx, rule string, p *packages.Package, floor int) {
+	c.Rule(rule, "in every method of fp.StateT the receiver is referred to only (a) in the method body itself (delegation to another method, at most one run) or (b) inside a func(S)(Try[_],S) literal, where it is run at most once on any path; it never appears inside a handler / continuation literal of another shape")
+	info := p.TypesInfo
+	n := 0
+	for _, fb := range funcBodies(c, []*packages.Package{p}) {
+		if fb.Lit != nil || fb.Decl == nil || fb.Decl.Recv == nil || len(fb.Decl.Recv.List) != 1 || len(fb.Decl.Recv.List[0].Names) != 1 {
+			continue
+		}
+		recv := info.Defs[fb.Decl.Recv.List[0].Names[0]]
+		if recv == nil || !isNamed(recv.Type(), "fp", "StateT") {
+			continue
+		}
+		n++
+		var bad ast.Node
+		why := ""
+		var walk func(nd ast.Node, inState, inOther bool)
+		walk = func(nd ast.Node, inState, inOther bool) {
+			ast.Inspect(nd, func(x ast.Node) bool {
+				if bad != nil {
+					return false
+				}
+				if fl, ok := x.(*ast.FuncLit); ok && ast.Node(fl) != nd {
+					shape := false
+					if tv, ok := info.Types[fl]; ok {
+						if sig, ok := tv.Type.Underlying().(*types.Signature); ok && stateShape(sig) != nil {
+							shape = true
+						}
+					}
+					if shape {
+						// count runs of the receiver in this state function
+						runs := 0
+						ast.Inspect(fl.Body, func(y ast.Node) bool {
+							call, ok := y.(*ast.CallExpr)
+							if !ok {
+								return true
+							}
+							if objOf(info, call.Fun) == recv {
+								runs++
+							}
+							if sel, ok := ast.Unparen(call.Fun).(*ast.SelectorExpr); ok && sel.Sel.Name == "Run" && objOf(info, sel.X) == recv {
+								runs++
+							}
+							return true
+						})
+						if runs > 1 {
+							bad, why = fl, "runs the receiver "+itoa(runs)+" times inside one state function"
+							return false
+						}
+						walk(fl.Body, true, inOther)
+					} else {
+						walk(fl.Body, inState, true)
+					}
+					return false
+				}
+				if id, ok := x.(*ast.Ident); ok && info.Uses[id] == recv && inOther {
+					bad, why = id, "refers to the receiver "+recv.Name()+" inside a handler / continuation literal"
+				}
+				return true
+			})
+		}
+		walk(fb.Body, false, false)
+		if bad != nil {
+			c.Add(rule, fb.Name, bad.Pos(), core.Violated, fb.Name+" "+why+": the receiver's computation is executed again (its state effects happen twice, and the error and state reported are those of the second run, not of the step that failed)")
+		} else {
+			c.Add(rule, fb.Name, fb.Decl.Pos(), core.Discharged, "receiver run at most once")
+		}
+	}
+	c.Floor(rule, "StateT methods", n, floor)
+}
